@@ -43,10 +43,15 @@ ASSUMPTIONS = [
     "'structurally wrong' = array/object where a specified scalar is expected, non-string where an enum is expected, non-object where an input "
     "object is expected; the library's lenient scalar coercions (Int from numeric string / integral float / bool, String and ID from numbers, "
     "Boolean by truthiness of scalars, Float from numeric string) are pinned by the suite and are modelled, not flagged; Python `bool` is an `int`",
-    "custom scalars (default_scalar) are identities: any value conforms; literal/variable equivalence is claimed for them on strings and booleans only",
+    "custom scalars are PARAMETERS of the model (`Reg.customParse` / `Reg.customParseLiteral`: arbitrary partial functions, nothing assumed): a value "
+    "conforms iff the scalar's own parser produced it (`CustomOK`); `RegOK.customNotNone` (a parser never answers None to a non-null input) and, for "
+    "literal/variable equivalence only, `CustomAgree` (the scalar's two parsers agree) are hypotheses about that user code, with witnesses that they "
+    "cannot be dropped; default_scalar and two sample scalars (`Even`, `Tag`) are exercised by the correspondence",
     "nested variables inside list/object literals: validation (VariablesInAllowedPosition) has accepted the document",
 ]
 TRUSTED = [
+    "the behaviour of a custom scalar's own parse/parse_literal is a parameter of the theorems; the sample scalars used by the correspondence are written "
+    "twice (harness/corr/C07.py custom_scalar, lean/Driver/C07.lean sampleParse) and compared through the real ScalarType machinery",
     "extraction of the coerce_int range test and the _typed_coerce tables (Python ast -> Lean) in corr/C07.py; the finiteness guard of "
     "coerce_float is extracted as a 3-row table by evaluating the source's test expression on representatives of finite / inf / nan",
     "Python builtins int(str, 10), float(str), float.is_integer, str(int), repr(float) are observed by the harness and passed to the model as annotations (modelled, not verified)",
@@ -256,7 +261,7 @@ class World:
         self.types = {"Int": Int, "Float": Float, "String": String, "Boolean": Boolean, "ID": ID}
         for t in reg["types"]:
             if t["kind"] == "custom":
-                self.types[t["name"]] = default_scalar(t["name"])
+                self.types[t["name"]] = custom_scalar(t["name"], t.get("impl", "identity"))
             elif t["kind"] == "enum":
                 self.types[t["name"]] = EnumType(t["name"], [(n, v) for n, v in t["values"]])
         for t in reg["types"]:
@@ -420,6 +425,33 @@ class World:
             return ("err",)
         except Exception as e:  # noqa
             return ("internal", type(e).__name__)
+
+
+def custom_scalar(name, impl):
+    """the sample custom scalars: user code with its own `parse` / `parse_literal` (mirrored in lean/Driver/C07.lean)"""
+    from py_gql.lang import ast as _ast
+    from py_gql.schema import ScalarType
+    from py_gql.schema.scalars import default_scalar
+    if impl == "identity":
+        return default_scalar(name)
+
+    def parse(v):
+        out = U.custom_parse(impl, v)
+        if out[0] == "value":
+            return out[1]
+        if out[0] == "refused":
+            raise ValueError("%s refuses %r" % (name, v))
+        raise KeyError(name)                     # not ValueError/TypeError: ScalarType.parse lets it through
+
+    def parse_literal(node, _variables):
+        if impl == "even":
+            if not isinstance(node, _ast.IntValue):
+                raise TypeError("Invalid literal")
+            return parse(int(node.value))
+        if not isinstance(node, _ast.StringValue):
+            raise TypeError("Invalid literal")
+        return parse(node.value)
+    return ScalarType(name, serialize=lambda v: v, parse=parse, parse_literal=parse_literal)
 
 
 def arg(name, t, default=None, py=None):
